@@ -13,7 +13,7 @@ use serde_json::json;
 use std::time::Duration;
 
 const RULE: &str = "one case = one execution in virtual time of a real endpoint with keepalive (I, T) from {1,2,3,5,10,60}^2 s (incl. T<I clamped, T=I) or keepalive disabled, against a raw peer whose pong script is: \
-always answer after d in [0,T'], answer k rounds then go silent, never answer, answer late (> T'). Oracle K1-K5 on the tap's virtual timestamps: k-th Ping at exactly k*I; a KeepaliveTimeout at tau requires tau - last_pong >= T'; \
+always answer after d in [0,T'], answer k rounds then go silent, never answer, answer late (> T'), always answer with a different delay in [0,T'] per Ping, always answer while the executor is busy until just after the next tick (Pong and tick handled in the same poll). Oracle K1-K5 on the tap's virtual timestamps: k-th Ping at exactly k*I; a KeepaliveTimeout at tau requires tau - last_pong >= T'; \
 a silent peer is detected by last_pong + T' + I; answered-in-time and disabled cases run to a horizon of 2000 intervals without returning; after the timeout every pending application operation resolves before quiescence. \
 The (I,T) grid x script kinds is enumerated completely; delays are seeded. Non-trivial = at least two Pings were observed or keepalive was disabled";
 
@@ -23,6 +23,12 @@ enum Script {
     Rounds { k: u32, d_ms: u64 },
     Never,
     Late { d_ms: u64 },
+    /// every Ping is answered after `d_ms`, but right after some Pongs were put on the wire the executor is
+    /// "busy" (the clock jumps, nothing is polled) until just after the next keepalive tick: the Pong and the
+    /// tick are then handled in the same poll of the connection task
+    AlwaysBusy { d_ms: u64, every: u32 },
+    /// every Ping is answered within T', each with its own delay (jitter): delays_ms[k % len]
+    AlwaysVar { delays_ms: Vec<u64> },
 }
 
 struct Obs {
@@ -68,6 +74,9 @@ fn one(st: &mut Stats, seed: u64, i_s: u64, t_s: u64, script: Script, reverse_or
         let pend = Pending::spawn(&sh, &e0.mux, reader, writer, true);
         // pong script
         let mut answered = 0u32;
+        let mut pongs_sent = 0u32;
+        let mut pings_seen = 0u32;
+        let t_start = tokio::time::Instant::now();
         let mut due: Vec<tokio::time::Instant> = Vec::new();
         let t_end = tokio::time::Instant::now() + Duration::from_millis(horizon_ms);
         let mut task = e0.task;
@@ -82,7 +91,22 @@ fn one(st: &mut Stats, seed: u64, i_s: u64, t_s: u64, script: Script, reverse_or
                     let n = due.iter().filter(|t| **t <= now).count();
                     due.retain(|t| *t > now);
                     for _ in 0..n {
-                        raw.send_msg(Message::Pong).await;
+                        pongs_sent += 1;
+                        let busy = matches!(&script2, Script::AlwaysBusy { every, .. } if pongs_sent % *every == 0 && i_ms > 0);
+                        if busy {
+                            // the Pong reaches the socket, but the endpoint's executor is busy: nobody is woken
+                            raw.ws.send_without_wake(Message::Pong);
+                        } else {
+                            raw.send_msg(Message::Pong).await;
+                        }
+                        if let Script::AlwaysBusy { every, .. } = &script2 {
+                            if pongs_sent % *every == 0 && i_ms > 0 {
+                                let t = now.duration_since(t_start).as_millis() as u64;
+                                let next_tick = (t / i_ms + 1) * i_ms;
+                                // no yield between the send above and this jump: the Pong is in the socket, unread
+                                tokio::time::advance(Duration::from_millis(next_tick - t + 1)).await;
+                            }
+                        }
                     }
                 }
                 g = raw.recv() => {
@@ -90,7 +114,11 @@ fn one(st: &mut Stats, seed: u64, i_s: u64, t_s: u64, script: Script, reverse_or
                         Got::Ping => {
                             let now = tokio::time::Instant::now();
                             match &script2 {
-                                Script::Always { d_ms } | Script::Late { d_ms } => due.push(now + Duration::from_millis(*d_ms)),
+                                Script::Always { d_ms } | Script::Late { d_ms } | Script::AlwaysBusy { d_ms, .. } => due.push(now + Duration::from_millis(*d_ms)),
+                                Script::AlwaysVar { delays_ms } => {
+                                    due.push(now + Duration::from_millis(delays_ms[pings_seen as usize % delays_ms.len()]));
+                                    pings_seen += 1;
+                                }
                                 Script::Rounds { k, d_ms } => {
                                     if answered < *k {
                                         answered += 1;
@@ -153,8 +181,11 @@ fn one(st: &mut Stats, seed: u64, i_s: u64, t_s: u64, script: Script, reverse_or
         st.nontrivial(mix(seed, 0));
         return;
     }
-    // K1 schedule
+    // K1 schedule (not for the busy-executor script: its ticks are late by construction)
     for (k, t) in o.pings.iter().enumerate() {
+        if matches!(script, Script::AlwaysBusy { .. }) {
+            break;
+        }
         let want = k as u64 * i_ms * 1000;
         if *t != want {
             fail(st, "ping-schedule".into(), format!("Ping #{k} was sent at {} us, expected exactly {} us", t, want));
@@ -173,11 +204,20 @@ fn one(st: &mut Stats, seed: u64, i_s: u64, t_s: u64, script: Script, reverse_or
             } else {
                 let p = last_pong_before(*tau);
                 // K-safety: never earlier than T' after the last pong received
-                if tp_ms != u64::MAX && tau - p < tp_ms * 1000 {
+                if tp_ms != u64::MAX && tau - p < tp_ms * 1000 && !matches!(script, Script::AlwaysBusy { .. }) {
                     fail(st, format!("timeout-too-early|{kind}"), format!("KeepaliveTimeout at {} ms but the last Pong arrived at {} ms: only {} ms of silence with T' = {} ms", tau / 1000, p / 1000, (tau - p) / 1000, tp_ms));
                 }
                 if tp_ms == u64::MAX {
                     fail(st, "timeout-with-timeout-disabled".into(), "KeepaliveTimeout although the timeout is disabled".into());
+                }
+                if matches!(script, Script::AlwaysBusy { .. }) {
+                    fail(st, "live-peer-timed-out|busy-executor".into(), format!("every Ping was answered (the Pong was in the socket) within T' = {tp_ms} ms, the executor was merely late in reading it, but the endpoint timed out at {} ms", tau / 1000));
+                }
+                if let Script::AlwaysVar { delays_ms } = &script {
+                    // how long had the endpoint heard nothing when it gave up?
+                    let silence = (tau - p) / 1000;
+                    let class = if silence > tp_ms { "silence-exceeded-T" } else { "silence-within-T" };
+                    fail(st, format!("live-peer-timed-out|variable-delay|{class}"), format!("every Ping was answered within T' = {tp_ms} ms (per-ping delays {delays_ms:?} ms) but the endpoint timed out at {} ms, {silence} ms after the last Pong", tau / 1000));
                 }
                 if matches!(script, Script::Always { .. }) {
                     fail(st, "live-peer-timed-out".into(), format!("every Ping was answered within T' = {tp_ms} ms but the endpoint timed out at {} ms (last pong {} ms)", tau / 1000, p / 1000));
@@ -225,7 +265,7 @@ pub fn run(p: &Params) -> (Stats, &'static str) {
     for rep in 0..reps {
         for i_s in vals {
             for t_s in vals {
-                for kind in 0..6 {
+                for kind in 0..9 {
                     idx += 1;
                     if idx % p.nshards != p.shard {
                         continue;
@@ -239,6 +279,12 @@ pub fn run(p: &Params) -> (Stats, &'static str) {
                         2 => Script::Rounds { k: rng.range(1, 5) as u32, d_ms: rng.range(0, tp) },
                         3 => Script::Rounds { k: rng.range(1, 3) as u32, d_ms: *rng.pick(&[0, tp]) },
                         4 => Script::Never,
+                        8 => Script::AlwaysVar { delays_ms: vec![0, tp] },
+                        7 => {
+                            let n = rng.range(2, 5) as usize;
+                            Script::AlwaysVar { delays_ms: (0..n).map(|_| if rng.chance(1, 3) { *rng.pick(&[0, tp]) } else { rng.range(0, tp) }).collect() }
+                        }
+                        6 => Script::AlwaysBusy { d_ms: *rng.pick(&[1, i_s * 250, i_s * 500]), every: rng.range(2, 3) as u32 },
                         _ => Script::Late { d_ms: tp + rng.range(1, 3 * i_s * 1000) },
                     };
                     one(&mut st, seed, i_s, t_s, script, false);
@@ -248,7 +294,7 @@ pub fn run(p: &Params) -> (Stats, &'static str) {
             }
         }
     }
-    st.exhaustive.push("(I,T) in {1,2,3,5,10,60}^2 x 6 pong-script kinds (delays seeded)".into());
+    st.exhaustive.push("(I,T) in {1,2,3,5,10,60}^2 x 9 pong-script kinds (delays seeded)".into());
     // disabled keepalive, timeout disabled, reverse builder order (probe)
     if p.shard == 0 {
         for (j, t_s) in [0u64, 5, 60].into_iter().enumerate() {
@@ -260,4 +306,20 @@ pub fn run(p: &Params) -> (Stats, &'static str) {
         st.notes.push("probe: with the builder called as keepalive_timeout(T) before keepalive_interval(I) the clamp max(T, NONE) disables the timeout altogether; recorded, no verdict (the client sets the interval first)".into());
     }
     (st, RULE)
+}
+
+
+pub fn debug(i_s: u64, t_s: u64, d_ms: u64, every: u32) {
+    std::panic::set_hook(Box::new(|_| {}));
+    sim::install_observer();
+    let mut st = Stats::new();
+    if every == 0 {
+        one(&mut st, 42, i_s, t_s, Script::AlwaysVar { delays_ms: vec![0, d_ms] }, false);
+    } else {
+        one(&mut st, 42, i_s, t_s, Script::AlwaysBusy { d_ms, every }, false);
+    }
+    for v in &st.violations {
+        println!("VIOL {} :: {}", v.signature, v.detail);
+    }
+    println!("{}", serde_json::to_string(&st.samples).unwrap_or_default());
 }
